@@ -22,7 +22,7 @@ REQUIRED_REACH = ["IntervalSingleBoundaryPoint.normal", "CircleBoundary.normal",
                   "IntersectionBoundaryDomain.normal", "TrimeshBoundary.normal"]
 MIN_NONTRIVIAL = 30
 ASSUMPTIONS = ["triangles are generated with counter-clockwise corners (documented precondition for outward normals)",
-               "rows within 4*eps of a corner or of another boundary piece are counted, not judged (step test ambiguous)",
+               "rows within 4*eps of a corner or 8*eps of another leaf boundary are counted, not judged (step test ambiguous)",
                "eps = 2e-3 L; unit length within 1e-4"]
 CASE_TIMEOUT = 150
 TOL = 2e-5
@@ -196,7 +196,7 @@ def run_case(case):
                 smooth &= np.abs(node.phi(X + sgn * 4 * eps * t, envr)) <= 0.5 * eps
         # a second leaf boundary within 4 eps makes the step test ambiguous
         leaves = np.abs(np.stack(node.leaf_phis(X, envr), 0))
-        smooth &= (leaves <= 4 * eps).sum(0) <= 1
+        smooth &= (leaves <= 8 * eps).sum(0) <= 1
         good = fin & ~badlen
         judge = good & smooth
         res["counters"]["rows_skipped_near_corner"] = res["counters"].get("rows_skipped_near_corner", 0) + int((good & ~smooth).sum())
